@@ -285,11 +285,35 @@ func runC16(c *Ctx) {
 		good = append(good, k)
 	}
 	c16KeyValidation(c, r, good)
+	// the same modulus with the factors in the other order (p < q and p > q both occur)
+	if len(good) > 0 {
+		src := good[len(good)-1]
+		if len(good) >= 4 {
+			src = good[3] // the 2048-bit legacy key: cheapest
+		}
+		if sw, err := c16SwappedKey(src); err != nil {
+			c.Violation(fmt.Sprintf("rebuilding a key with swapped factors failed p=%s q=%s: %s", hexNat(src.q), hexNat(src.p), c16Err(err)))
+		} else {
+			c.Emit(fmt.Sprintf("key %s %d %s %s", sw.flavour, sw.bits, hexNat(sw.p), hexNat(sw.q)), "ok:"+hexNat(sw.N))
+			c.Count("key.swapped")
+			good = append(good, sw)
+		}
+	}
+	for _, k := range good {
+		if k.p.Cmp(k.q) < 0 {
+			c.Count("key.p<q")
+		} else {
+			c.Count("key.p>q")
+		}
+	}
 	for i, k := range good {
 		kr := NewRng(c.Seed, 1610+uint64(i))
 		c16Constructors(c, kr, k)
 		c16Encrypt(c, kr, k, prng)
+		c16SymEnc(c, kr, k)
+		c16SkOps(c, kr, k)
 		c16Chains(c, kr, k)
+		c16DecBad(c, kr, k)
 		if len(good) > 1 {
 			c16Foreign(c, kr, k, good[(i+1)%len(good)])
 		}
@@ -746,16 +770,7 @@ func (k *c16Key) c16Step(c *Ctx, r *Rng, path string, t *c16Triple) (kind, opera
 		s := k.randScalar(r)
 		kind = "scal"
 		operands = hexInt(s)
-		switch {
-		case s.Sign() < 0:
-			c.Count("scalar.negative")
-		case s.Sign() == 0:
-			c.Count("scalar.zero")
-		case s.Cmp(k.N) >= 0:
-			c.Count("scalar.geN")
-		default:
-			c.Count("scalar.small")
-		}
+		k.countScalar(c, s)
 		si := c16Int(s)
 		out = &c16Triple{}
 		if out.ct, err = o.CiphertextScalarOp(t.ct, si); err != nil {
@@ -793,6 +808,26 @@ func (k *c16Key) c16Step(c *Ctx, r *Rng, path string, t *c16Triple) (kind, opera
 	return
 }
 
+func (k *c16Key) countScalar(c *Ctx, s *big.Int) {
+	abs := new(big.Int).Abs(s)
+	switch {
+	case s.Sign() < 0:
+		c.Count("scalar.negative")
+	case s.Sign() == 0:
+		c.Count("scalar.zero")
+	case s.Cmp(k.N) < 0:
+		c.Count("scalar.small")
+	}
+	switch {
+	case abs.BitLen() > k.NN.BitLen():
+		c.Count("scalar.longer-than-NN")
+	case abs.Cmp(k.NN) >= 0:
+		c.Count("scalar.geNN")
+	case abs.Cmp(k.N) >= 0:
+		c.Count("scalar.geN")
+	}
+}
+
 // c16ScalarSweep forces every scalar class through both key paths (the random chains only sample them).
 func c16ScalarSweep(c *Ctx, r *Rng, k *c16Key) {
 	nHex := hexNat(k.N)
@@ -803,9 +838,11 @@ func c16ScalarSweep(c *Ctx, r *Rng, k *c16Key) {
 		new(big.Int).Add(k.N, r.BigBelow(k.N)),
 		new(big.Int).Add(k.NN, r.BigBelow(k.NN)),
 	}
+	scalars = append(scalars, k.c16LongScalars(r)...)
 	for _, path := range []string{"pk", "sk"} {
 		o := k.ops(path)
 		for _, s := range scalars {
+			k.countScalar(c, s)
 			t := k.freshTriple(path, r)
 			si := c16Int(s)
 			var out c16Triple
@@ -832,7 +869,7 @@ func c16ScalarSweep(c *Ctx, r *Rng, k *c16Key) {
 }
 
 func c16Chains(c *Ctx, r *Rng, k *c16Key) {
-	chains, steps := 3, 5
+	chains, steps := 3, 6
 	if c.Thorough() {
 		chains, steps = 12, 10
 	}
@@ -842,8 +879,15 @@ func c16Chains(c *Ctx, r *Rng, k *c16Key) {
 		path := []string{"pk", "sk"}[ch%2]
 		t := k.freshTriple(path, r)
 		for st := 0; st < steps; st++ {
-			if c.Thorough() && r.IntN(3) == 0 {
-				path = []string{"pk", "sk"}[r.IntN(2)] // mixed paths inside one chain
+			if st > 0 && (r.IntN(2) == 0 || st == steps/2) {
+				// mixed paths inside one chain: the tracked (m, r, c) moves between the
+				// public-key and the secret-key (CRT) implementation of the operations
+				if path == "pk" {
+					path = "sk"
+				} else {
+					path = "pk"
+				}
+				c.Count("chain.path-switch")
 			}
 			var kind, operands string
 			var out *c16Triple
@@ -867,6 +911,9 @@ func c16Chains(c *Ctx, r *Rng, k *c16Key) {
 				break
 			}
 			t = out
+			if st == steps-1 {
+				c.Count(fmt.Sprintf("chain.len%d", steps))
+			}
 			// the tracked plaintext/nonce must be what the secret key recovers from the ciphertext
 			if st == steps-1 || r.IntN(2) == 0 || c.Thorough() {
 				k.emitDecOpen(c, t.ct, ptBig(t.pt), ncBig(t.nc))
